@@ -354,6 +354,14 @@ class HttpDown(object):
                 elif a[0] == 'status':
                     t['status'] = a[1]
                     out = 'HTTP/1.1 %d Scripted [%s]\r\nContent-Length: 0\r\n\r\n' % (a[1], tag)
+                elif a[0] == 'body':
+                    # the message is accepted and the response head is complete (the attempt gets its result);
+                    # the announced body is then withheld / trickled / cut while the connection is kept
+                    t['accepted'] = True
+                    t['status'] = 200
+                    framing = 'Transfer-Encoding: chunked' if a[1] == 'chunked-stall' else 'Content-Length: %d' % a[2]
+                    out = ('HTTP/1.1 200 OK\r\n%s\r\n'
+                           'X-Smtp-Reply: 250; message="2.6.0 queued [%s]"\r\n\r\n' % (framing, tag))
                 else:
                     raise ValueError(a)
                 f.write(out.encode())
@@ -362,6 +370,38 @@ class HttpDown(object):
                 if a[0] == 'okclose':
                     c.closed_by = 'server'
                     return
+                if a[0] == 'body':
+                    kind, n = a[1], a[2]
+                    self.lab.body_pending[c.n] = kind
+                    try:
+                        if kind == 'cut':
+                            f.write(b'x' * (n // 2))
+                            f.flush()
+                            c.closed_by = 'server'
+                            return
+                        if kind == 'trickle':
+                            self.lab.trickles += 1
+                            try:
+                                for _ in range(n):
+                                    gevent.sleep(a[3])
+                                    f.write(b'x')
+                                    f.flush()
+                            finally:
+                                self.lab.trickles -= 1
+                        elif kind == 'chunked-stall':
+                            f.write(b'3\r\nabc\r\n')
+                            f.flush()
+                            self.lab.stall(('body', c.n))
+                            f.write(b'0\r\n\r\n')
+                            f.flush()
+                        else:
+                            f.write(b'x' * (n // 2))
+                            f.flush()
+                            self.lab.stall(('body', c.n))
+                            f.write(b'x' * (n - n // 2))
+                            f.flush()
+                    finally:
+                        self.lab.body_pending.pop(c.n, None)
         except (OSError, IOError, ValueError):
             c.closed_by = c.closed_by or 'peer'
         finally:
@@ -533,6 +573,11 @@ class PoolLab(object):
         self.kill = None               # state of the relay.kill() call of the 'kill' stratum
         self.dns_queries = collections.Counter()
         self.pool_domains = collections.defaultdict(set)
+        self.stalls = []               # [(label, Event)] next-hop stalls: held until the drain has judged them
+        self.trickles = 0              # response bodies being trickled right now
+        self.body_pending = {}         # http connection -> kind of unfinished response body
+        self.epoch = 0                 # patience rounds of the drain (see _patience)
+        self.pop_epoch = {}            # id(result) -> epoch in which a client took the request
         self.http = None
         self.ds = None
         if self.mode == 'http':
@@ -654,9 +699,24 @@ class PoolLab(object):
         self.holder.pop(id(item[0]), None)
         self.ev('requeue',)
 
+    def stall(self, label):
+        e = Event()
+        self.stalls.append((label, e))
+        self.cnt['stall:' + label[0]] += 1
+        self.ev('stall', label[0], label[1])
+        e.wait()
+
+    def pending_body_of(self, g):
+        """kinds of unfinished response bodies on open connections the client greenlet g created"""
+        return sorted(k for n, k in self.body_pending.items() if n in self.open and self.conn_owner.get(n) is g)
+
     def on_pop(self, item, g):
         self.holder[id(item[0])] = g
         self.pops[g] += 1
+        self.pop_epoch[id(item[0])] = self.epoch
+        for k in self.pending_body_of(g):
+            self.cnt['http-reuse-with-unfinished-response-body'] += 1
+            self.cnt['http-reuse:body-' + k] += 1
         c = self.by_env.get(id(item[1]))
         if c is not None and c.gave_up:
             self.cnt['giveup:abandoned-request-taken-by-a-client-later'] += 1
@@ -764,6 +824,12 @@ class PoolLab(object):
                     act = ('okclose',)
                 elif 'timeout' in mix and 0.3 <= u < 0.4 and self.case.get('http_timeout'):
                     act = ('delay', self.case['http_timeout'] * 6, ('ok',))
+                if 'bodystall' in mix and act == ('ok',) and U(s, 'b', key) < 0.55:
+                    T = self.case['http_timeout']
+                    kind = ['stall', 'stall', 'chunked-stall', 'trickle', 'cut'][int(U(s, 'bk', key) * 5)]
+                    # trickle: 24 bytes, one every 0.4 T -- far longer than the relay timeout and than the drain's
+                    # patience, but it ends by itself
+                    act = ('body', kind, 24 if kind == 'trickle' else 4 + int(U(s, 'bn', key) * 60), 0.4 * T)
         elif stage == 'connect':
             if 'refuse' in mix and u < 0.3:
                 act = ('refuse',)
@@ -785,7 +851,8 @@ class PoolLab(object):
         if act[0] == 'reply' and self.mode != 'http' and stage != 'idle':
             act = (act[0], act[1], 'scripted @%s' % stage)
         if act[0] != 'ok':
-            fresh = self.fault(key, act[0] if act[0] != 'reply' else 'reply@' + re.sub(r'\d+', '', stage))
+            fresh = self.fault(key, 'body-' + act[1] if act[0] == 'body' else
+                               act[0] if act[0] != 'reply' else 'reply@' + re.sub(r'\d+', '', stage))
             self.ev('fault', conn, stage, act[0])
             if fresh and act[0] in ('close', 'refuse', 'okclose') or (fresh and stage == 'idle'):
                 # the client on this connection is about to die / lose its connection at this stage
@@ -998,6 +1065,8 @@ class PoolLab(object):
                 self.settle()
                 if self._stranded():
                     break
+                if self.stalls or self.trickles:
+                    break       # the drain judges what the stalled next hop does to the callers
             ch = ['nap', 'settle']
             if remaining and self.idle and self.last_poll:
                 ch += ['snipe'] * 2
@@ -1083,6 +1152,40 @@ class PoolLab(object):
                 out.append((c, 'request-in-nobodys-hands'))
         return out
 
+    def _patience(self, outcome, deadline):
+        """HTTP next hop stalled / trickling inside a response body, callers still waiting: the relay's request
+        timeout T has to end that.  The harness waits 4 sleeps of 1.25 T *after* the client took the request --
+        its sleeps and slimta's gevent.Timeout are timers of the same hub, so the order in which they fire does not
+        depend on how slow the machine is -- and then looks: a request taken before the round began and still in
+        the hands of a live client has outlived the relay timeout.  Afterwards the stalls are released."""
+        T = self.case.get('http_timeout')
+        while T and (self.stalls or self.trickles):
+            self.settle()
+            if not self.blocked() or time.time() > deadline:
+                break
+            self.epoch += 1
+            self.cnt['patience-rounds'] += 1
+            for _ in range(4):
+                gevent.sleep(T * 1.25)
+                self.settle()
+            late = []
+            for c in self.blocked():
+                if c.request is None or c.request[0].ready():
+                    continue
+                h = self.holder.get(id(c.request[0]))
+                if h is not None and not h.dead and self.pop_epoch.get(id(c.request[0]), self.epoch) < self.epoch:
+                    late.append((c, {'caller': c.marker, 'unfinished_bodies_on_its_connections': self.pending_body_of(h),
+                                     'client_idle_flag': getattr(h, 'idle', None),
+                                     'queued_behind': self.queued_total(), 'pool': len(c.pool.pool),
+                                     'stalls_held': [l for l, _ in self.stalls], 'events_tail': self.events[-12:]}))
+            if late:
+                outcome['blocked_past_timeout'] = late
+                break
+        while self.stalls:
+            label, e = self.stalls.pop()
+            self.ev('release', label[0], label[1])
+            e.set()
+
     def busy_clients(self):
         """client greenlets that are neither finished nor sleeping in poll()"""
         return [cl for cl in self.clients if not cl.dead and not getattr(cl, 'idle', False)]
@@ -1097,7 +1200,8 @@ class PoolLab(object):
                 self.settle(1)
         grace = (self.idle or 0.0) * 2 + 0.03
         deadline = time.time() + WATCHDOG
-        outcome = {'watchdog': False, 'stranded': [], 'quiesce_watchdog': False}
+        outcome = {'watchdog': False, 'stranded': [], 'quiesce_watchdog': False, 'blocked_past_timeout': []}
+        self._patience(outcome, deadline)
         while True:
             self.settle()
             if not self.blocked():
@@ -1159,6 +1263,8 @@ class PoolLab(object):
     def cleanup(self):
         if self.kill is not None and not self.kill['done']:
             self.kill['greenlet'].kill(block=False)
+        for _, e in self.stalls:
+            e.set()
         for c in self.callers:
             if c.greenlet is not None and not c.greenlet.dead:
                 c.greenlet.kill(block=False)
